@@ -115,18 +115,6 @@ func removalMutants(base *Program, idPrefix string, max int, r interface{ Intn(i
 				}
 			}
 		}
-		for _, prs := range man.Sets {
-			for _, pr := range prs {
-				if pr.Class == "bind-missing" {
-					okClass = true
-					if pr.Ty != nil {
-						names = append(names, DiagName(m, pr.Ty))
-					}
-				} else {
-					other = true
-				}
-			}
-		}
 		if !okClass {
 			continue
 		}
